@@ -1,18 +1,23 @@
 // Kani harnesses for the bit-chunk codecs of integer/src/convert.rs (C07 "to/from bit chunks are mutually inverse";
-// C17: the chunk buffers are hand-sized `Buffer`s written through `&mut [&mut [Word]]`, checked here under CBMC's
-// pointer / bounds checks).
+// C17: the kernels write through `&mut [&mut [Word]]` / sub-slices with computed offsets, checked here under CBMC's
+// pointer / bounds checks with buffers of exactly the sizes the callers allocate).
 //
-// Functions under test: words_to_chunks, chunks_to_words, TypedReprRef::to_chunks, Repr::from_chunks.
+// Functions under test: words_to_chunks, chunks_to_words (symbolic data), TypedReprRef::to_chunks, Repr::from_chunks
+// (RefSmall: symbolic; RefLarge / from_chunks allocation glue: concrete values, see below).
 //
 // Oracle (from the property statement / the documentation of UBig::to_chunks, from_chunks): the chunks c_0..c_{k-1} of x
 // for a chunk size of b bits satisfy  k = ceil(bit_len(x) / b),  c_i < 2^b,  sum c_i * 2^(i*b) = x;  from_chunks returns
 // sum c_i * 2^(i*b) for ARBITRARY chunks (also chunks wider than b bits).  Sums are formed limb-wise with explicit
-// carries (5 limbs of 64 bits), shifts are by the concrete / small amounts i*b.
+// carries (5 limbs of 64 bits), shifts are by the literal amounts i*b.
 //
-// Bound: magnitudes of at most 3 words.  Large (3-word) inputs have fully symbolic low words and a top word from a
-// concrete palette, chunk sizes from {7, 63, 64, 65, 128, 200}: the control flow of the codecs depends only on the bit
-// length and the chunk size, and a symbolic chunk count means a symbolic number of heap allocations (out of reach for
-// CBMC; also avoids the known copy_from_slice-with-symbolic-offset bug).  Small inputs: see each harness.
+// Bound: magnitudes of at most 3 words.  3-word inputs have two fully symbolic low words and a top word from a concrete
+// palette, chunk sizes are literals from {7, 63, 64, 65, 128, 200}: the control flow of the codecs depends only on the
+// bit length and the chunk size (and symbolic copy offsets hit the known copy_from_slice problem of CBMC).
+// The Vec<Buffer> / Box<[&mut [Word]]> / in-place collect glue of to_chunks (RefLarge) and from_chunks is too slow for
+// CBMC even with two chunks and symbolic data (> 6 min, > 14 GB): the kernel harnesses therefore own the chunk buffers
+// (sized `ceil(chunk_bits / WORD_BITS) + 1` words each, exactly as to_chunks allocates them; result buffer
+// `max_len + (n - 1) * chunk_bits / 64 + 2` words, at most what from_chunks allocates), and the glue is run on concrete
+// numbers only (vk_int_chunks_glue_*).
 use super::*;
 include!("/verif/kani/harness/shim.rs");
 
@@ -20,28 +25,32 @@ const _: () = assert!(WORD_BITS == 64); // all Kani runs use force_bits = "64"
 
 const VK_L: usize = 5;
 
-/// limbs of a non-negative Repr (at most 4 words)
+fn vk_slice_limbs(ws: &[Word]) -> [u64; VK_L] {
+    let mut m = [0u64; VK_L];
+    let mut i = 0;
+    while i < VK_L {
+        if i < ws.len() {
+            m[i] = ws[i];
+        }
+        i += 1;
+    }
+    // nothing beyond 5 limbs
+    let mut i = VK_L;
+    while i < ws.len() {
+        assert!(ws[i] == 0);
+        i += 1;
+    }
+    m
+}
+
+/// limbs of a non-negative Repr (at most 5 words)
 fn vk_repr_limbs(r: &Repr) -> [u64; VK_L] {
     let (sign, t) = r.as_sign_typed();
     assert!(sign == Positive);
-    let mut m = [0u64; VK_L];
     match t {
-        RefSmall(d) => {
-            m[0] = d as u64;
-            m[1] = (d >> 64) as u64;
-        }
-        RefLarge(ws) => {
-            assert!(ws.len() <= 4);
-            let mut i = 0;
-            while i < 4 {
-                if i < ws.len() {
-                    m[i] = ws[i];
-                }
-                i += 1;
-            }
-        }
+        RefSmall(d) => [d as u64, (d >> 64) as u64, 0, 0, 0],
+        RefLarge(ws) => vk_slice_limbs(ws),
     }
-    m
 }
 
 /// acc += c * 2^sh (must not overflow 5 limbs)
@@ -91,142 +100,110 @@ fn vk_limbs_eq(a: &[u64; VK_L], b: &[u64; VK_L]) -> bool {
     a[0] == b[0] && a[1] == b[1] && a[2] == b[2] && a[3] == b[3] && a[4] == b[4]
 }
 
-/// to_chunks(x, cb) against the oracle, then from_chunks on the result gives x back.  `bit_len` is the oracle's own
-/// bit length of x (computed by the caller without the code under test); MAXC bounds the number of chunks.
-fn vk_check_chunks<const MAXC: usize>(x: TypedReprRef<'_>, mag: [u64; VK_L], bit_len: usize, cb: usize) {
-    let chunks = x.to_chunks(cb);
-    let want = if bit_len == 0 { 0 } else { (bit_len - 1) / cb + 1 };
-    assert!(chunks.len() == want && want <= MAXC);
-    let mut acc = [0u64; VK_L];
-    let mut i = 0;
-    while i < MAXC {
-        if i < chunks.len() {
-            let c = vk_repr_limbs(&chunks[i]);
-            assert!(vk_below_pow2(&c, cb));
-            vk_add_shifted(&mut acc, &c, i * cb);
-        }
-        i += 1;
-    }
-    assert!(vk_limbs_eq(&acc, &mag));
-    // the most significant chunk is not empty ("chunks_out.len() tightly fits all chunks")
-    if want > 0 {
-        let c = vk_repr_limbs(&chunks[want - 1]);
-        assert!(!(c[0] == 0 && c[1] == 0 && c[2] == 0 && c[3] == 0));
-    }
-    // ... and back
-    let empty: &[Word] = &[];
-    let mut refs: [&[Word]; MAXC] = [empty; MAXC];
-    let mut i = 0;
-    while i < MAXC {
-        if i < chunks.len() {
-            refs[i] = chunks[i].as_slice();
-        }
-        i += 1;
-    }
-    let back = Repr::from_chunks(&refs[..want], cb);
-    assert!(vk_limbs_eq(&vk_repr_limbs(&back), &mag));
+fn vk_is_zero(a: &[u64; VK_L]) -> bool {
+    a[0] == 0 && a[1] == 0 && a[2] == 0 && a[3] == 0 && a[4] == 0
 }
 
-// ---------------------------------------------------------------------------------------------------------------
-// 3-word inputs: low words symbolic, top word and chunk size concrete
-
-macro_rules! vk_chunks_large3 {
-    ($name:ident, $cb:expr, $maxc:expr, $tops:expr) => {
-        #[cfg_attr(kani, kani::proof)]
-        #[cfg_attr(not(kani), test)]
-        #[cfg_attr(kani, kani::unwind(36))]
-        fn $name() {
-            let lo: [Word; 2] = any();
-            let tops: &[Word] = &$tops;
-            let mut t = 0;
-            while t < tops.len() {
-                let w = [lo[0], lo[1], tops[t]];
-                // oracle bit length of the concrete top word by repeated halving
-                let mut bl = 128;
-                let mut v = tops[t];
-                while v != 0 {
-                    bl += 1;
-                    v >>= 1;
-                }
-                vk_check_chunks::<$maxc>(RefLarge(&w), [w[0], w[1], w[2], 0, 0], bl, $cb);
-                t += 1;
-            }
-            cover();
-        }
-    };
-}
-// 128: 2 chunks (the word-aligned shortcut whose last chunk is shorter than the chunk size)
-vk_chunks_large3!(vk_int_chunks_large3_cb128, 128, 2, [1, 1 << 63]);
-// 64: 3 chunks, word-aligned shortcut
-vk_chunks_large3!(vk_int_chunks_large3_cb64, 64, 3, [1, (1 << 63) | 5]);
-// 65: 2 or 3 chunks, unaligned path (130 / 65 = 2 exactly: the last chunk ends at the bit length)
-vk_chunks_large3!(vk_int_chunks_large3_cb65, 65, 3, [2, 4, 1 << 63]);
-// 63: 3 or 4 chunks (189 = 3 * 63)
-vk_chunks_large3!(vk_int_chunks_large3_cb63, 63, 4, [1 << 60, 1 << 61, u64::MAX]);
-// 200: one chunk wider than the number
-vk_chunks_large3!(vk_int_chunks_large3_cb200, 200, 1, [1, u64::MAX]);
-// 7: 19..=28 chunks
-vk_chunks_large3!(vk_int_chunks_large3_cb7, 7, 28, [1, 1 << 63]);
-
-// ---------------------------------------------------------------------------------------------------------------
-// 1..=2 word inputs (TypedReprRef::RefSmall): fully symbolic value below a concrete power of two, concrete chunk size,
-// at most 13 chunks
-
-/// bit length by 128 comparisons (oracle)
-fn vk_bit_len_u128(x: u128) -> usize {
+/// bit length of a concrete word by repeated halving (oracle)
+fn vk_bit_len_word(mut v: u64) -> usize {
     let mut n = 0;
-    let mut i = 0;
-    while i < 128 {
-        if (x >> i) != 0 {
-            n = i + 1;
-        }
-        i += 1;
+    while v != 0 {
+        n += 1;
+        v >>= 1;
     }
     n
 }
 
-macro_rules! vk_chunks_small {
-    ($name:ident, $cb:expr, $max_bits:expr) => {
+// ---------------------------------------------------------------------------------------------------------------
+// kernels on 3-word inputs: low words symbolic, top word and chunk size literal.
+// NC = number of chunks (checked against ceil(bit_len / cb)), WPC = words per chunk buffer = ceil(cb / 64) + 1.
+
+macro_rules! vk_chunks_kernel {
+    ($name:ident, $cb:expr, $nc:expr, $wpc:expr, $top:expr) => {
         #[cfg_attr(kani, kani::proof)]
         #[cfg_attr(not(kani), test)]
-        #[cfg_attr(kani, kani::unwind(130))]
+        #[cfg_attr(kani, kani::unwind(70))]
         fn $name() {
-            let x: DoubleWord = any();
-            assume($max_bits == 128 || x >> ($max_bits % 128) == 0);
-            let bl = vk_bit_len_u128(x);
-            vk_check_chunks::<13>(RefSmall(x), [x as u64, (x >> 64) as u64, 0, 0, 0], bl, $cb);
+            const CB: usize = $cb;
+            const NC: usize = $nc;
+            const WPC: usize = $wpc;
+            let lo: [Word; 2] = any();
+            let w: [Word; 3] = [lo[0], lo[1], $top];
+            let mag = [w[0], w[1], w[2], 0, 0];
+            let bl = 128 + vk_bit_len_word($top);
+            assert!(NC == (bl - 1) / CB + 1 && WPC == (CB - 1) / 64 + 2);
+            // words -> chunks
+            let mut bufs = [[0 as Word; WPC]; NC];
+            {
+                let mut it = bufs.iter_mut();
+                let mut refs: [&mut [Word]; NC] = core::array::from_fn(|_| &mut it.next().unwrap()[..]);
+                words_to_chunks(&w, &mut refs, CB);
+            }
+            let mut acc = [0u64; VK_L];
+            let mut i = 0;
+            while i < NC {
+                let c = vk_slice_limbs(&bufs[i]);
+                assert!(vk_below_pow2(&c, CB));
+                vk_add_shifted(&mut acc, &c, i * CB);
+                i += 1;
+            }
+            assert!(vk_limbs_eq(&acc, &mag));
+            // "no empty chunk": the most significant chunk is not zero
+            assert!(!vk_is_zero(&vk_slice_limbs(&bufs[NC - 1])));
+            // chunks -> words (result and scratch buffers as from_chunks sizes them: see file header)
+            const RL: usize = WPC + (NC - 1) * CB / 64 + 2;
+            let mut out = [0 as Word; RL];
+            let mut scratch = [0 as Word; WPC + 1];
+            {
+                let refs: [&[Word]; NC] = core::array::from_fn(|k| &bufs[k][..]);
+                chunks_to_words(&mut out, &refs, CB, &mut scratch);
+            }
+            assert!(vk_limbs_eq(&vk_slice_limbs(&out), &mag));
             cover();
         }
     };
 }
-// (chunk size, bound on the bit length of x): at most 13 chunks
-vk_chunks_small!(vk_int_chunks_small_cb1, 1, 13);
-vk_chunks_small!(vk_int_chunks_small_cb7, 7, 90);
-vk_chunks_small!(vk_int_chunks_small_cb63, 63, 128);
-vk_chunks_small!(vk_int_chunks_small_cb64, 64, 128);
-vk_chunks_small!(vk_int_chunks_small_cb65, 65, 128);
-vk_chunks_small!(vk_int_chunks_small_cb127, 127, 128);
-vk_chunks_small!(vk_int_chunks_small_cb128, 128, 128);
-vk_chunks_small!(vk_int_chunks_small_cb129, 129, 128);
+// 128: 2 chunks, word-aligned shortcut whose last chunk is shorter than the chunk size (the repaired defect f5c9bbd)
+vk_chunks_kernel!(vk_int_chunks_kernel_cb128_a, 128, 2, 3, 1);
+vk_chunks_kernel!(vk_int_chunks_kernel_cb128_b, 128, 2, 3, 1 << 63);
+// 64: 3 chunks, word-aligned shortcut
+vk_chunks_kernel!(vk_int_chunks_kernel_cb64, 64, 3, 2, (1 << 63) | 5);
+// 65: 130 = 2 * 65 bits exactly (last chunk ends at the bit length), 131 and 192 bits: 3 chunks
+vk_chunks_kernel!(vk_int_chunks_kernel_cb65_a, 65, 2, 3, 2);
+vk_chunks_kernel!(vk_int_chunks_kernel_cb65_b, 65, 3, 3, 4);
+vk_chunks_kernel!(vk_int_chunks_kernel_cb65_c, 65, 3, 3, 1 << 63);
+// 63: 189 = 3 * 63 bits, 190 and 192 bits: 4 chunks
+vk_chunks_kernel!(vk_int_chunks_kernel_cb63_a, 63, 3, 2, 1 << 60);
+vk_chunks_kernel!(vk_int_chunks_kernel_cb63_b, 63, 4, 2, 1 << 61);
+vk_chunks_kernel!(vk_int_chunks_kernel_cb63_c, 63, 4, 2, u64::MAX);
+// 200: a single chunk wider than the number
+vk_chunks_kernel!(vk_int_chunks_kernel_cb200, 200, 1, 5, u64::MAX);
+// 7: 19 and 28 chunks
+vk_chunks_kernel!(vk_int_chunks_kernel_cb7_a, 7, 19, 2, 1);
+vk_chunks_kernel!(vk_int_chunks_kernel_cb7_b, 7, 28, 2, 1 << 63);
 
 // ---------------------------------------------------------------------------------------------------------------
-// from_chunks on ARBITRARY chunks ("it's allowed for each chunk to have more bits than chunk_bits"): three chunks of
-// concrete lengths 2, 0, 1 words with symbolic contents, chunk sizes 1, 64, 65, 100
+// chunks_to_words on ARBITRARY chunks ("it's allowed for each chunk to have more bits than chunk_bits"): three chunks
+// of 2, 0, 1 fully symbolic words, literal chunk size
 macro_rules! vk_chunks_from {
     ($name:ident, $cb:expr) => {
         #[cfg_attr(kani, kani::proof)]
         #[cfg_attr(not(kani), test)]
-        #[cfg_attr(kani, kani::unwind(36))]
+        #[cfg_attr(kani, kani::unwind(12))]
         fn $name() {
+            const CB: usize = $cb;
             let a: [Word; 2] = any();
             let c: [Word; 1] = any();
             let empty: [Word; 0] = [];
             let chunks: [&[Word]; 3] = [&a, &empty, &c];
-            let r = Repr::from_chunks(&chunks, $cb);
+            // max_len = 2: result max_len + 2 * CB / 64 + 2 words (<= what from_chunks allocates), scratch max_len + 1
+            let mut out = [0 as Word; 2 + 2 * CB / 64 + 2];
+            let mut scratch = [0 as Word; 3];
+            chunks_to_words(&mut out, &chunks, CB, &mut scratch);
             let mut acc = [0u64; VK_L];
             vk_add_shifted(&mut acc, &[a[0], a[1], 0, 0, 0], 0);
-            vk_add_shifted(&mut acc, &[c[0], 0, 0, 0, 0], 2 * $cb);
-            assert!(vk_limbs_eq(&vk_repr_limbs(&r), &acc));
+            vk_add_shifted(&mut acc, &[c[0], 0, 0, 0, 0], 2 * CB);
+            assert!(vk_limbs_eq(&vk_slice_limbs(&out), &acc));
             cover();
         }
     };
@@ -236,12 +213,129 @@ vk_chunks_from!(vk_int_chunks_from_cb64, 64);
 vk_chunks_from!(vk_int_chunks_from_cb65, 65);
 vk_chunks_from!(vk_int_chunks_from_cb100, 100);
 
+// ---------------------------------------------------------------------------------------------------------------
+// 1..=2 word inputs (TypedReprRef::RefSmall::to_chunks): fully symbolic value, literal chunk size, at most 3 chunks
+
+/// bit length of a symbolic u128 by binary search (oracle; no loop)
+fn vk_bit_len_u128(x: u128) -> usize {
+    let mut n = 0usize;
+    let mut v = x;
+    if v >> 64 != 0 {
+        n += 64;
+        v >>= 64;
+    }
+    if v >> 32 != 0 {
+        n += 32;
+        v >>= 32;
+    }
+    if v >> 16 != 0 {
+        n += 16;
+        v >>= 16;
+    }
+    if v >> 8 != 0 {
+        n += 8;
+        v >>= 8;
+    }
+    if v >> 4 != 0 {
+        n += 4;
+        v >>= 4;
+    }
+    if v >> 2 != 0 {
+        n += 2;
+        v >>= 2;
+    }
+    if v >> 1 != 0 {
+        n += 1;
+        v >>= 1;
+    }
+    if v != 0 {
+        n += 1;
+    }
+    n
+}
+
+macro_rules! vk_chunks_small {
+    ($name:ident, $cb:expr) => {
+        #[cfg_attr(kani, kani::proof)]
+        #[cfg_attr(not(kani), test)]
+        #[cfg_attr(kani, kani::unwind(8))]
+        fn $name() {
+            const CB: usize = $cb;
+            let x: DoubleWord = any();
+            let mag = [x as u64, (x >> 64) as u64, 0, 0, 0];
+            let bl = vk_bit_len_u128(x);
+            let want = if bl == 0 { 0 } else { (bl - 1) / CB + 1 };
+            let chunks = RefSmall(x).to_chunks(CB);
+            assert!(chunks.len() == want && want <= 3);
+            let mut acc = [0u64; VK_L];
+            let mut i = 0;
+            while i < 3 {
+                if i < chunks.len() {
+                    let c = vk_repr_limbs(&chunks[i]);
+                    assert!(vk_below_pow2(&c, CB));
+                    vk_add_shifted(&mut acc, &c, i * CB);
+                    if i + 1 == want {
+                        assert!(!vk_is_zero(&c));
+                    }
+                }
+                i += 1;
+            }
+            assert!(vk_limbs_eq(&acc, &mag));
+            cover();
+        }
+    };
+}
+vk_chunks_small!(vk_int_chunks_small_cb63, 63);
+vk_chunks_small!(vk_int_chunks_small_cb64, 64);
+vk_chunks_small!(vk_int_chunks_small_cb65, 65);
+vk_chunks_small!(vk_int_chunks_small_cb127, 127);
+vk_chunks_small!(vk_int_chunks_small_cb128, 128);
+vk_chunks_small!(vk_int_chunks_small_cb129, 129);
+
+// ---------------------------------------------------------------------------------------------------------------
+// the allocation glue of TypedReprRef::to_chunks (RefLarge) and Repr::from_chunks on CONCRETE numbers: chunk count,
+// buffer sizes (CBMC checks every access), values, and the round trip
+fn vk_glue_one<const NC: usize>(w: [Word; 3], cb: usize) {
+    let mag = [w[0], w[1], w[2], 0, 0];
+    let chunks = RefLarge(&w).to_chunks(cb);
+    assert!(chunks.len() == NC);
+    let mut acc = [0u64; VK_L];
+    let mut i = 0;
+    while i < NC {
+        let c = vk_repr_limbs(&chunks[i]);
+        assert!(vk_below_pow2(&c, cb));
+        vk_add_shifted(&mut acc, &c, i * cb);
+        i += 1;
+    }
+    assert!(vk_limbs_eq(&acc, &mag));
+    let refs: [&[Word]; NC] = core::array::from_fn(|k| chunks[k].as_slice());
+    let back = Repr::from_chunks(&refs, cb);
+    assert!(vk_limbs_eq(&vk_repr_limbs(&back), &mag));
+}
+
+#[cfg_attr(kani, kani::proof)]
+#[cfg_attr(not(kani), test)]
+#[cfg_attr(kani, kani::unwind(70))]
+fn vk_int_chunks_glue_cb128() {
+    vk_glue_one::<2>([0x0123456789abcdef, 0xfedcba9876543210, 4], 128); // (1 << 130) + ...: the input of defect f5c9bbd
+    cover();
+}
+
+#[cfg_attr(kani, kani::proof)]
+#[cfg_attr(not(kani), test)]
+#[cfg_attr(kani, kani::unwind(70))]
+fn vk_int_chunks_glue_cb65() {
+    vk_glue_one::<3>([u64::MAX, 0x8000000000000001, 0xdeadbeef], 65);
+    cover();
+}
+
 // no chunks at all: zero
 #[cfg_attr(kani, kani::proof)]
 #[cfg_attr(not(kani), test)]
-fn vk_int_chunks_from_none() {
+#[cfg_attr(kani, kani::unwind(6))]
+fn vk_int_chunks_glue_none() {
     let chunks: [&[Word]; 0] = [];
     let r = Repr::from_chunks(&chunks, 8);
-    assert!(vk_limbs_eq(&vk_repr_limbs(&r), &[0; VK_L]));
+    assert!(vk_is_zero(&vk_repr_limbs(&r)));
     cover();
 }
